@@ -150,7 +150,44 @@ func c02ContainsSrc(v ssa.Value, ptrs, vals []*ssa.Parameter, depth int) bool {
 		wrapper := callIs(x, "io", "", "MultiReader") || callIs(x, "io", "", "LimitReader") || callIs(x, "io", "", "TeeReader") ||
 			callIs(x, "bufio", "", "NewReader") || callIs(x, "bufio", "", "NewReaderSize") || callIs(x, "io", "", "NopCloser")
 		if !wrapper {
-			return false
+			// a same-package function that returns a reader built around the one it was given
+			// (e.g. prepend(extra, in) io.Reader): contains the source if its argument does and all its returns contain that parameter
+			g := staticCallee(x)
+			if g == nil || len(g.Blocks) == 0 || depth > 2 {
+				return false
+			}
+			gp, gv := c02SrcRoots(g)
+			if len(gv) == 0 || len(gp) != 0 {
+				return false
+			}
+			argHas := false
+			for j, pa := range g.Params {
+				for _, v := range gv {
+					if v == pa && j < len(x.Call.Args) && c02ContainsSrc(x.Call.Args[j], ptrs, vals, depth+1) {
+						argHas = true
+					}
+				}
+			}
+			if !argHas {
+				return false
+			}
+			n, all := 0, true
+			allInstrs(g, func(in ssa.Instruction) {
+				ret, ok := in.(*ssa.Return)
+				if !ok || len(ret.Results) == 0 || (len(ret.Block().Preds) == 0 && ret.Block().Index != 0) {
+					return
+				}
+				for i := range ret.Results {
+					if !c02IsIOReader(g.Signature.Results().At(i).Type()) {
+						continue
+					}
+					n++
+					if !c02ContainsSrc(c02Ret(ret, i), nil, gv, depth+1) {
+						all = false
+					}
+				}
+			})
+			return n > 0 && all
 		}
 		for _, a := range x.Call.Args {
 			if c02ContainsSrc(a, ptrs, vals, depth+1) {
@@ -236,6 +273,7 @@ func c02SourceFlow(p *Prog, fn *ssa.Function, depth int) *c02SrcFlowResult {
 	}
 	var reads []readEv
 	var stores []*ssa.Store
+	var helperSinks []c02SrcSink
 	allInstrs(fn, func(in ssa.Instruction) {
 		if res.undecided != "" {
 			return
@@ -264,6 +302,19 @@ func c02SourceFlow(p *Prog, fn *ssa.Function, depth int) *c02SrcFlowResult {
 					return // not handed on, or a wrapper whose result contains the source
 				}
 				h := staticCallee(x)
+				if h != nil && p.InModule(h) && len(h.Blocks) > 0 && !c02ReadsGivenReaderD(h, 0, nil) {
+					// the helper does not read: it may replace the reader (push the over-read bytes back). Its
+					// replacements are judged like the function's own, in the state reached at the call.
+					hasSink, keeps, why := c02PushBackSummary(p, h, 0)
+					if why != "" {
+						res.undecided = why
+						return
+					}
+					if hasSink {
+						helperSinks = append(helperSinks, c02SrcSink{in: x, keeps: keeps})
+					}
+					return
+				}
 				if h != nil && p.InModule(h) && len(h.Blocks) > 0 && depth < 3 {
 					c02LabelHelper(p, h, "read helper")
 					hr := c02SourceFlow(p, h, depth+1)
@@ -439,6 +490,13 @@ func c02SourceFlow(p *Prog, fn *ssa.Function, depth int) *c02SrcFlowResult {
 			continue
 		}
 		res.sinks = append(res.sinks, c02SrcSink{st, isSrc(st.Val), anyState(before, noteof)})
+	}
+	for _, hs := range helperSinks {
+		before, reach := ff.Before(hs.in)
+		if !reach {
+			continue
+		}
+		res.sinks = append(res.sinks, c02SrcSink{hs.in, hs.keeps, anyState(before, noteof)})
 	}
 	return res
 }
@@ -639,4 +697,58 @@ func c02Ret(ret *ssa.Return, i int) ssa.Value {
 		}
 	}
 	return v
+}
+
+// c02PushBackSummary: what a helper that receives the source (by pointer) but
+// does not read from it does to it: hasSink = it stores a reader through the
+// pointer; keeps = every reader it stores still contains the source.
+func c02PushBackSummary(p *Prog, h *ssa.Function, depth int) (hasSink, keeps bool, why string) {
+	ptrs, vals := c02SrcRoots(h)
+	keeps = true
+	allInstrs(h, func(in ssa.Instruction) {
+		if why != "" {
+			return
+		}
+		switch x := in.(type) {
+		case *ssa.Store:
+			for _, pa := range ptrs {
+				if x.Addr == ssa.Value(pa) {
+					hasSink = true
+					if !c02ContainsSrc(x.Val, ptrs, vals, 0) {
+						keeps = false
+					}
+				}
+			}
+		case ssa.CallInstruction:
+			cc := x.Common()
+			for _, a := range cc.Args {
+				isPtr := false
+				for _, pa := range ptrs {
+					if a == ssa.Value(pa) {
+						isPtr = true
+					}
+				}
+				if !isPtr {
+					continue
+				}
+				g := staticCallee(x)
+				if g == nil || !p.InModule(g) || len(g.Blocks) == 0 || depth >= 2 {
+					why = FuncName(p, h) + " hands the source pointer to " + cc.Value.Name() + "; what happens to the source there cannot be followed"
+					return
+				}
+				hs, k, w := c02PushBackSummary(p, g, depth+1)
+				if w != "" {
+					why = w
+					return
+				}
+				if hs {
+					hasSink = true
+					if !k {
+						keeps = false
+					}
+				}
+			}
+		}
+	})
+	return
 }
